@@ -16,7 +16,7 @@ func (rn *runner) runCLIPhase(scratch string, all []worldItem) {
 	r := rn.r
 	var items []worldItem
 	for _, it := range all {
-		if it.phase == "paths" || it.phase == "shadow" {
+		if it.cliMode != selNone {
 			items = append(items, it)
 		}
 	}
@@ -36,27 +36,7 @@ func (rn *runner) runCLIPhase(scratch string, all []worldItem) {
 			return
 		}
 		defer os.RemoveAll(dir)
-		cands := pathCandidates(w)
-		sels := subDirSelections(w)
-		if r.Quick() {
-			// one path or one exclude
-			for _, s := range pathSelections(".", cands, 1, 1, true) {
-				if len(s.Paths)+len(s.Excludes) == 1 {
-					sels = append(sels, s)
-				}
-			}
-		} else {
-			sels = append(sels, pathSelections(".", cands, 1, 1, true)...)
-			for _, d := range w.ModDirs {
-				if d != "." {
-					for _, s := range pathSelections(d, cands, 1, 1, true) {
-						if len(s.Paths)+len(s.Excludes) == 1 {
-							sels = append(sels, s)
-						}
-					}
-				}
-			}
-		}
+		sels := selections(w, it.cliMode, false)
 		for _, sel := range sels {
 			sel := sel
 			args := []string{"build", filepath.Join(dir, filepath.FromSlash(sel.SubDir)), "-o", "-#format=binpb"}
